@@ -20,7 +20,8 @@ done < <(python3 - "$here/../known_findings.json" <<'PY'
 import json,sys
 seen=set()
 for f in json.load(open(sys.argv[1]))["findings"]:
-    if f["status"]=="fixed" and f["commit"] not in seen:
-        seen.add(f["commit"]); print(f["commit"], f["property"])
+    # one line per (commit, property): a repair recorded under two properties is undone against both checks
+    if f["status"]=="fixed" and (f["commit"],f["property"]) not in seen:
+        seen.add((f["commit"],f["property"])); print(f["commit"], f["property"])
 PY
 )
